@@ -26,7 +26,7 @@ LEVEL_TEXT = ("Real end-to-end runs on random coastlines (islands, one-cell chan
 LEVEL_NOTE = "The valid region and sea cells are computed independently from the grid file (mask_rho, subgrid limits). Trusts the spied velocities as the scheme's output (their correctness is C01/C02)."
 RULE = ("case = world (mask, flow, subgrid) x run (scheme, diffusion, release, IBM schedule, layout). Non-trivial: at least one move cancelled by land or one particle killed at the "
         "open boundary or one inactive particle held; distinct by case parameters.")
-MANDATORY = ["record_after_everybody_died", "records_checked_against_deaths", "moved", "cancelled_by_land", "killed_at_boundary", "inactive_held", "diffusion_on", "scheme_EF", "scheme_RK2", "scheme_RK4",
+MANDATORY = ["warm_start_records_checked_against_earlier_deaths", "record_after_everybody_died", "records_checked_against_deaths", "moved", "cancelled_by_land", "killed_at_boundary", "inactive_held", "diffusion_on", "scheme_EF", "scheme_RK2", "scheme_RK4",
              "tracker_updates", "records_checked", "release_near_rim", "subgrid", "dense", "one_cell_channel", "release_event_adding_nobody", "reversed_time"]
 ASSUMPTIONS = ["release positions in sea cells of the valid region (as the property quantifies)"]
 TIMEOUT = {"quick": 900, "thorough": 3400}
@@ -63,7 +63,7 @@ def gen_case(seed: int, idx: int) -> dict[str, Any]:
                 scheme=["EF", "RK2", "RK4"][idx % 3], diffusion=float(rng.choice([0.0, 0.0, 20.0, 150.0])),
                 nsteps=int(rng.integers(12, 31)), nrel=int(rng.integers(12, 40)), layout="dense" if idx % 5 == 4 else "sparse",
                 deact_frac=float(rng.choice([0.0, 0.2])), kill_frac=float(rng.choice([0.0, 0.1])), cont=bool(rng.random() < 0.5), reversed=bool(idx % 4 == 3),
-                all_die=bool(idx % 8 == 5))
+                all_die=bool(idx % 8 == 5), warm=bool(idx % 8 == 1))
 
 
 def gen_cases(tier: str, seed: int) -> list[dict[str, Any]]:
@@ -120,6 +120,13 @@ def build(case: dict[str, Any]):
         rows = [r for r in cand if M[int(round(r[2])), int(round(r[1]))] > 0][:3] or rows[:1]
         late_ = [r for r in cand if M[int(round(r[2])), int(round(r[1]))] > 0][:1]
         rows += [[min(nsteps - 2, 9), r[1], r[2], r[3]] for r in late_]
+    if case.get("warm") and not case.get("all_die"):
+        # split output and a later warm start from the first file: the newest particle of the first file (the last row released at step 2) is killed
+        # at step 3, i.e. before that file's last record, and new particles are released after the restart
+        first = [r for r in rows if r[0] == 0][:6] or [[0] + rows[0][1:]]
+        inner = sorted(rows, key=lambda r: -min(r[1] - xlo, xhi - r[1], r[2] - ylo, yhi - r[2]))[:2]  # the rows farthest from the rim: they live on for a while
+        rows = first + [[2] + first[0][1:]] + [[7] + r[1:] for r in inner]
+        nsteps = max(nsteps, 12)
     rows.sort(key=lambda r: r[0])
     relrows = [[str(tadd(start, sg * r[0] * dt)), 1, r[1], r[2], r[3]] for r in rows]
     # release times at which every row has mult = 0 (a release event that adds nobody), spread over the run
@@ -134,7 +141,11 @@ def build(case: dict[str, Any]):
     if nd:
         deact[str(int(rng.integers(0, 4)))] = [int(p) for p in rng.choice(npart, size=nd, replace=False)]
     nk = int(case["kill_frac"] * npart)
-    if case.get("all_die"):
+    if case.get("warm") and not case.get("all_die"):
+        deact = {}
+        kill = {}
+        kill_time = {str(tadd(start, sg * 3 * dt)): [len([r for r in rows if r[0] == 0])]}
+    elif case.get("all_die"):
         deact = {}
         kill = {"2": [p for p in range(npart) if rows[p][0] == 0]}  # whoever has not left by then is killed: everybody present dies in that step at the latest
     elif nk:
@@ -143,6 +154,10 @@ def build(case: dict[str, Any]):
                release=dict(columns=["release_time", "mult", "X", "Y", "Z"], rows=relrows, header=True),
                ibm=dict(module=C.REC_IBM, kill=kill, deactivate=deact, log=False),
                output=dict(period=dt * 2, layout=case["layout"]))
+    if case.get("warm") and not case.get("all_die"):
+        run["ibm"]["kill_time"] = kill_time
+    if case.get("warm") and not case.get("all_die"):
+        run["output"] = dict(period=dt * 2, layout="sparse", numrec=3)
     return dict(world=w, run=run), M, (xlo, xhi, ylo, yhi), near_rim
 
 
@@ -345,6 +360,26 @@ def run_case(case: dict[str, Any], wd: Path) -> dict[str, Any]:
             sit["records_checked_against_deaths"] = sit.get("records_checked_against_deaths", 0) + int(any(v < k for v in dead_at.values()))
             if len(r.pid) == 0 and any(v < k for v in dead_at.values()):
                 sit["record_after_everybody_died"] = sit.get("record_after_everybody_died", 0) + 1
+        if case.get("warm") and not case.get("all_die") and len(res.outputs) > 1 and not V:
+            # the dead stay dead across a restart: warm start from the first file, nobody who was dead by then may show up again
+            run2 = dict(scn["run"], warm_start=dict(filename=str(res.outputs[0]), variables=[]))
+            run2["output"] = dict(scn["run"]["output"], filename="out_001.nc")
+            with Hooks() as hk2:
+                install_tracker_monitor(hk2, M, box, float(case["dt"]), case["dx"], case["dx"], V, sit, cnt, desc)
+                res2, _c2, _w2 = run_scenario(dict(world=None, run=run2), wd / "warm", world=world)
+            if not res2.ok:
+                V.append(C.viol(f"warm-started continuation did not complete: {res2.exc}", tb=res2.tb[-1200:], **desc))
+            else:
+                recs2 = all_records(read_outputs(res2.outputs))
+                k_restart = 4
+                dead_before = {p for p, s_ in dead_at.items() if s_ < k_restart}
+                sit["warm_start_records_checked_against_earlier_deaths"] = len(recs2) * int(bool(dead_before))
+                for r in recs2:
+                    back = sorted(set(int(p) for p in r.pid) & dead_before)
+                    if back:
+                        V.append(C.viol(f"after a warm start from {res.outputs[0].name}: record at {r.time} holds pids {back[:8]}, which were dead before the restart "
+                                        f"(pid {back[0]} since step {dead_at[back[0]]})", **desc))
+                        break
         xlo, xhi, ylo, yhi = box
         for r in recs:
             X, Y = np.asarray(r.vars["X"]), np.asarray(r.vars["Y"])
